@@ -43,7 +43,7 @@ def partitions(n, k):
 
 HDR_GLUE = r'''
 from vf.hlib import NS
-from vf.fakes import FakeFrame
+from vf.fakes import FakeFrame, concat_frames
 import rtflite as rtf
 import rtflite.encoding.unified_encoder as ue
 from rtflite.encoding.unified_encoder import UnifiedRTFEncoder
@@ -73,11 +73,13 @@ def run_section(body, n_pages):
     saved_reg = dict(StrategyRegistry._strategies)
     import polars as _real_polars
     from rtflite.pagination.strategies.base import PageContext as _RealPC, PaginationContext as _RealPGC
-    saved = swapped((_real_polars, NS(DataFrame=FakeFrame)), (_RealPGC, lambda **kw: NS(**kw)), (_RealPC, lambda **kw: NS(tag="empty", **kw)))
+    saved = swapped((_real_polars, NS(DataFrame=FakeFrame, concat=concat_frames)), (_RealPGC, lambda **kw: NS(**kw)), (_RealPC, lambda **kw: NS(tag="empty", **kw)))
     StrategyRegistry._strategies.update({"default": mk("default"), "page_by": mk("page_by"), "subline": mk("subline")})
     saved.__enter__()
     try:
-        df = FakeFrame({c: [c + "0", c + "1"] for c in COLS})
+        # rows 0 and 2 share every possible grouping key (q, b, a); the never-grouped column z tells them apart
+        df = FakeFrame({c: ([c + "0", c + "1", c + "2"] if c == "z" else [c + "0", c + "1", c + "0"]) for c in COLS})
+        seen["given_rows"] = df.to_dicts()
         doc = NS(rtf_page=NS(col_width=6.0), rtf_body=body)
         out = UnifiedRTFEncoder._encode_body_section(me, doc, df, body)
     finally:
@@ -106,6 +108,7 @@ def glue_ob(oid, timeout):
     ctx = seen["ctx"]
     ok = seen["strategy"] == ("subline" if subline_by else ("page_by" if page_by else "default"))
     ok = ok and ctx.df.columns == COLS and ctx.rtf_body is body
+    ok = ok and ctx.df.to_dicts() == seen["given_rows"]          # the caller's rows, in the caller's order
     ok = ok and list(ctx.removed_column_indices or []) == [i for i, c in enumerate(COLS) if c in removed]
     ok = ok and len(ctx.col_widths) == len(shown) and ctx.additional_rows_per_page == 7
     ok = ok and list(ctx.table_attrs.col_rel_width) == [w for w, c in zip([1, 2, 3, 4], COLS) if c in shown]
@@ -115,6 +118,7 @@ def glue_ob(oid, timeout):
         acc += w * 6.0 / tot
         ok = ok and abs(cw - acc) < 1e-9
     pages, processed, b2 = seen["post"]
+    ok = ok and [r[c] for r in seen["given_rows"] for c in shown] == [r[c] for r in processed.to_dicts() for c in shown]
     ok = ok and processed.columns == shown and b2 is body
     if empty:
         ok = ok and len(pages) == 1 and pages[0].tag == "empty" and out == [("RENDER", "empty")]
